@@ -122,6 +122,21 @@ static int op_set_d(int argc, tok_t *a, out_t *o) {
   mpz_clear(w); return 0;
 }
 
+/* mpq_inv (dest, src): mode dna dnv dda ddv sna snv sda sdv; mode 0 distinct, 1 dest is src; the mpq fields are mpz objects of the
+   given allocations (src must be canonical: den > 0); output: ALLOC SIZ value of num (dest), then of den (dest) */
+static int op_mpq_inv(int argc, tok_t *a, out_t *o) {
+  NEED(argc == 9); long m = mode_of(&a[0]); NEED(m == 0 || m == 1);
+  mpz_t z[4]; int e, i;
+  for (i = 0; i < 4; i++) if (mk(z[i], &a[1 + 2 * i], &a[2 + 2 * i])) { while (i--) mpz_clear(z[i]); return -1; }
+  NEED(SIZ(z[3]) > 0 || (mpz_clear(z[0]), mpz_clear(z[1]), mpz_clear(z[2]), mpz_clear(z[3]), 0));
+  mpq_t d, s;
+  *mpq_numref(d) = *z[0]; *mpq_denref(d) = *z[1]; *mpq_numref(s) = *z[2]; *mpq_denref(s) = *z[3];
+  mpq_ptr D = m == 1 ? s : d;
+  e = GUARD(mpq_inv(D, s));
+  if (e) out_err(o, "div0"); else { outw(o, mpq_numref(D)); outw(o, mpq_denref(D)); }
+  mpq_clear(d); mpq_clear(s); return 0;
+}
+
 /* mpz_sqrt (w, u): mode wa wv ua uv; mode 0 or 1; a negative operand raises SQRT_OF_NEGATIVE */
 static int op_sqrt(int argc, tok_t *a, out_t *o) {
   NEED(argc == 5); long m = mode_of(&a[0]); NEED(m == 0 || m == 1);
@@ -147,6 +162,6 @@ static int op_mpf_urandomb(int argc, tok_t *a, out_t *o) {
 
 const opdef_t ops_allocsafe4[] = {
   {"as4_addmul_ui", op_addmul_ui}, {"as4_submul_ui", op_submul_ui},
-  {"as4_addmul", op_addmul}, {"as4_submul", op_submul}, {"as4_mul", op_mul}, {"as4_mpf_urandomb", op_mpf_urandomb}, {"as4_sqrt", op_sqrt}, {"as4_set_d", op_set_d}, {"as4_sqrtrem", op_sqrtrem}, {"as4_tdiv_qr", op_tdiv_qr}, {"as4_tdiv_q", op_tdiv_q}, {"as4_tdiv_r", op_tdiv_r},
+  {"as4_addmul", op_addmul}, {"as4_submul", op_submul}, {"as4_mul", op_mul}, {"as4_mpf_urandomb", op_mpf_urandomb}, {"as4_sqrt", op_sqrt}, {"as4_mpq_inv", op_mpq_inv}, {"as4_set_d", op_set_d}, {"as4_sqrtrem", op_sqrtrem}, {"as4_tdiv_qr", op_tdiv_qr}, {"as4_tdiv_q", op_tdiv_q}, {"as4_tdiv_r", op_tdiv_r},
   {0, 0}
 };
